@@ -238,38 +238,54 @@ func c02Q6(r *core.R) {
 	p := &c02Pipe{m: m, info: info, in: f.in, out: f.out, queue: f.queue, ops: m.chanOps()}
 	loop := p.mainLoop(g, f.in)
 	n := 0
+	judged := map[ast.Node]bool{}
+	judge := func(b c09Build, fi *FuncInfo, inLoop bool) {
+		if judged[b.src] {
+			return
+		}
+		judged[b.src] = true
+		n++
+		where := "restart"
+		if inLoop {
+			where = "loop"
+		}
+		c := fmt.Sprintf("fresh-storage@%s %s pair", g.unit.name, where)
+		prov := &c02Prov{m: m, seen: map[types.Object]bool{}}
+		v := prov.storage(b.blob, 0)
+		hoisted := ""
+		if v == c02Fresh {
+			hoisted = c02HoistedAt(m, b.blob, b.src, fi)
+			if hoisted == "" && len(prov.hoisted) > 0 {
+				hoisted = prov.hoisted[0]
+			}
+		}
+		switch {
+		case v == c02Shared:
+			r.Bad(c, b.pos, "the %s handed to a worker in `%s` is not storage of its own: %s; the reader fills it again (proto.Unmarshal resets the message) while a worker may still be decoding the earlier block: a data race and blocks decoded from another block's data", f.blobIn.Name(), src(r.P.Fset, b.src), strings.Join(c02Uniq(prov.why), "; "))
+		case v == c02Unknown:
+			r.Unknown(c, b.pos, "could not decide that the %s handed to a worker in `%s` is a fresh allocation for every block: %s", f.blobIn.Name(), src(r.P.Fset, b.src), strings.Join(c02Uniq(prov.why), "; "))
+		case hoisted != "":
+			r.Bad(c, b.pos, "the %s handed to a worker in `%s` is %s: one value is shared by all blocks and refilled while workers still read it", f.blobIn.Name(), src(r.P.Fset, b.src), hoisted)
+		default:
+			r.OK(c, b.pos, "the %s in `%s` is, on every definition chain (locals, parameters, helper results), a fresh allocation made for this block", f.blobIn.Name(), src(r.P.Fset, b.src))
+		}
+	}
+	siteInLoop := func(s *pbfSite, x ast.Node) bool {
+		if loop == nil {
+			return false
+		}
+		rp := s.rootPos(x)
+		return loop.Pos() <= rp && rp <= loop.End()
+	}
 	m.deepWalkOpt(g.unit, false, func(s *pbfSite, x ast.Node) bool {
+		// pairs built in the code the reader runs
 		for _, b := range c02BuildsAt(m, f, x, s.unit().fi) {
-			n++
-			where := "restart"
-			inLoop := loop != nil && len(s.frames) == 1 && loop.Pos() <= b.pos && b.pos <= loop.End()
-			if len(s.frames) > 1 && loop != nil {
-				// a helper: in the loop when the reader's own statement that leads to it is
-				rp := s.rootPos(x)
-				inLoop = loop.Pos() <= rp && rp <= loop.End()
-			}
-			if inLoop {
-				where = "loop"
-			}
-			c := fmt.Sprintf("fresh-storage@%s %s pair", g.unit.name, where)
-			prov := &c02Prov{m: m, seen: map[types.Object]bool{}}
-			v := prov.storage(b.blob, 0)
-			hoisted := ""
-			if v == c02Fresh {
-				hoisted = c02HoistedAt(m, b.blob, b.src, s.unit().fi)
-				if hoisted == "" && len(prov.hoisted) > 0 {
-					hoisted = prov.hoisted[0]
-				}
-			}
-			switch {
-			case v == c02Shared:
-				r.Bad(c, b.pos, "the %s handed to a worker in `%s` is not storage of its own: %s; the reader fills it again (proto.Unmarshal resets the message) while a worker may still be decoding the earlier block: a data race and blocks decoded from another block's data", f.blobIn.Name(), src(r.P.Fset, b.src), strings.Join(c02Uniq(prov.why), "; "))
-			case v == c02Unknown:
-				r.Unknown(c, b.pos, "could not decide that the %s handed to a worker in `%s` is a fresh allocation for every block: %s", f.blobIn.Name(), src(r.P.Fset, b.src), strings.Join(c02Uniq(prov.why), "; "))
-			case hoisted != "":
-				r.Bad(c, b.pos, "the %s handed to a worker in `%s` is %s: one value is shared by all blocks and refilled while workers still read it", f.blobIn.Name(), src(r.P.Fset, b.src), hoisted)
-			default:
-				r.OK(c, b.pos, "the %s in `%s` is, on every definition chain (locals, parameters, helper results), a fresh allocation made for this block", f.blobIn.Name(), src(r.P.Fset, b.src))
+			judge(b, s.unit().fi, siteInLoop(s, x))
+		}
+		// pairs built elsewhere (in the spawner) and handed to the reader: found from the send that dispatches them
+		if snd, ok := x.(*ast.SendStmt); ok && m.chanClass(nil, snd.Chan) == f.in {
+			for _, sb := range c09SentBuilds(m, f, snd.Value, s.unit().fi, map[types.Object]bool{}, 0) {
+				judge(sb.c09Build, sb.fi, siteInLoop(s, x))
 			}
 		}
 		return true
